@@ -30,6 +30,24 @@ claimed = {
  "C17": dict(text="Deductive proof that rangeCheckProof establishes canonicity of the whole proof view - all seven opening lists, every queried leaf element, every fold evaluation, every final-polynomial coefficient and the proof-of-work witness (13 loops, 3 nested, each with a quantified invariant; list lengths symbolic) - and that VerifierChip.Verify calls it on its own proof argument, for every range-checker type.",
              note=TRUST + " Verify's other callees are used through thin trusted contracts (they are irrelevant to this statement).",
              technique="contracts + quantified loop invariants over symbolic slices + SMT", design="§4 C17"),
+ "C09": dict(text="Deductive proof (SOUND: the only accepted output; COMPLETE: the honest output is accepted, all lazily reduced accumulations fit) that the in-circuit Goldilocks Poseidon permutation equals the layer-by-layer specification of plonky2's poseidon.rs (constant, S-box x^7, MDS, and the fast partial rounds) over the module's constant tables, and that the sponge (HashNToMNoPad: rate 8, overwrite mode, any input/output length, loops cut at invariants over recursive specification functions; HashNoPad: inputs reduced first) equals plonky2's hash_n_to_m_no_pad.",
+             note=TRUST + " The constant tables are the ones in goldilocks_constants.go (their equality with plonky2's published tables cannot be checked offline; any runtime write to them makes the proof fail). HashNoPad's result is stated over the ghost sequence of reduced inputs.",
+             technique="contracts + opaque layer specifications + loop invariants over recursive spec functions + SMT", design="§4 C09"),
+ "C10": dict(text="Deductive proof that BN254Chip.Poseidon equals the round-by-round transcription of the in-repo Rust reference (crypto/plonky2_bn128/src/poseidon_bn128.rs), that HashNoPad / HashOrNoop / TwoToOne equal config.rs (overwrite sponge over 3x64-bit little-endian packing, short-input shortcut, compression), that ToVec is the exact 5x56-bit decomposition of the canonical value, plus linear-arithmetic lemmas for injectivity of the 3-element packing and of the 56-bit chunking, and a table obligation comparing all 512 Go constants with poseidon_bn128_constants.rs.",
+             note=TRUST + " Inputs are canonical Goldilocks values (callers prove it).",
+             technique="contracts + opaque permutation functions + recursive sponge spec + SMT; table comparison with the Rust source", design="§4 C10"),
+ "C11": dict(text="Deductive proof that every challenger method performs exactly the plonky2 duplex-sponge transition on the (state, input buffer, output buffer) view, that sequences of observations/squeezes equal the corresponding recursive specification, and that VerifierChip.GetChallenges returns betas, gammas, alphas, zeta, FRI alpha, FRI betas, the proof-of-work response and the query indices equal to the specification transcript fed, in order, with circuit digest, public-input hash, wires cap, Zs/partial-products cap, quotient cap, all openings (plonky2 order), each commit-phase cap, the final polynomial and the proof-of-work witness.",
+             note=TRUST + " 'Every observed value influences every later challenge' is a property of the sponge construction (the specification), not proved; the openings enter the transcript through the value returned by ToOpenings (a ghost result with the proved segment-wise equality to the proof's lists).",
+             technique="contracts on a mutable receiver (modifies/old), opaque transition functions, recursive transcript spec, ghost call results + SMT", design="§4 C11"),
+ "C12": dict(text="Deductive proof (SOUND and COMPLETE, any path length) that verifyMerkleProofToCapWithCapIndex accepts exactly when folding the leaf hash (PoseidonBN128 hash_or_noop) with the siblings, ordered by the index bits, yields the cap entry selected by the four cap-index bits (both bit vectors constrained boolean; 16-entry cap and 4 cap bits or the circuit is refused); verifyInitialProof establishes this for every oracle, and verifyQueryRound for the index bits of the reduced query index.",
+             note=TRUST + " Hash functions are the specification functions proved equal to the chip under C10; that only a committed leaf can reach a cap entry is collision resistance (assumed). The wiring of the per-step Merkle openings inside the round loop is checked for bounds and shape only.",
+             technique="contracts + loop invariant over a recursive Merkle-fold spec + SMT", design="§4 C12"),
+ "C14": dict(text="Deductive proof that assertLeadingZeros enforces response < 2^(64 - proof_of_work_bits) for every difficulty 1..63 and every range-checker type, that VerifyFriProof applies it to the transcript's proof-of-work response, and that this response is the challenge drawn after the final polynomial and the supplied proof-of-work witness were observed (GetFriChallenges / GetChallenges transcript contracts).",
+             note=TRUST + " Inherits the deferred-range-check rule of C06 for the commit checker (64 - bits must be 16-aligned there, else the circuit is refused).",
+             technique="contracts + SMT; uint64 arithmetic modelled exactly", design="§4 C14"),
+ "C20": dict(text="Deductive proof that validateFriProofShape establishes plonky2's validate_fri_proof_shape predicate (cap sizes, number of evaluation proofs, leaf lengths per oracle incl. salt, sibling counts per tree and per step via the running arity sum, evaluations per step = arity, final-polynomial length), that VerifyFriProof additionally enforces the number of query rounds and query indices, that Merkle checks refuse caps other than 16 entries / 4 cap bits, that query rounds refuse arities other than 4, and that the FRI instance lists exactly plonky2's oracles and polynomial ranges; index-out-of-range in the remaining code is a refusal (Go panic).",
+             note=TRUST + " Not decided by this technique: rejection of over-long opening lists and caps beyond the checked sizes (no explicit check exists; rejection is cryptographic). The PLONK-side index checks (partial products) are not yet under contract.",
+             technique="contracts on plain Go shape checks + quantified loop invariants + SMT", design="§4 C20"),
 }
 
 titles = {}
